@@ -41,11 +41,16 @@ package rpc
 //@   modifies * g:held
 //@   ensures lockdrop(&c.mu)
 
+// sendMessage is entered with c.mu held and the sender lock free, and on EVERY return - also when
+// the transport cannot create the message, when the builder fails and when the send fails - has
+// given the sender lock back and holds exactly the mutexes it was entered with.
 //@ func Conn.sendMessage -> err
-//@   trusted
-//@   requires c != nil && held(&c.mu)
+//@   props C08 C09
+//@   locktypestate
+//@   partial lock post
+//@   requires c != nil && held(&c.mu) && !sending(c)
 //@   modifies *
-//@   ensures held(&c.mu)
+//@   ensures senderfree: !sending(c)
 
 // ---------------------------------------------------------------- callers (PARTIAL: lock discipline only)
 
@@ -79,8 +84,8 @@ package rpc
 //@   props C09
 //@   locktypestate
 //@   partial lock
-//@   requires ic != nil && ic.c != nil && nolocks()
-//@   ensures nolocks()
+//@   requires ic != nil && ic.c != nil && nolocks() && !sending(ic.c)
+//@   ensures nolocks() && !sending(ic.c)
 
 // ---------------------------------------------------------------- error annotation
 
